@@ -188,6 +188,16 @@ func (se *SpecEnv) eval(e ast.Expr) Value {
 			return F.Lt(bt, at)
 		case token.GEQ:
 			return F.Le(bt, at)
+		case token.SHL:
+			// mathematical: a * 2^b for 0 <= b < 64 (no wrap-around: spec integers are unbounded)
+			return F.Mul(at, se.fr.pow2sym(bt, 64))
+		case token.SHR:
+			return se.fr.divPow2sym(at, bt, 64)
+		case token.XOR:
+			if bt.IsConst() && bt.K.Cmp(big.NewInt(1)) == 0 {
+				// a ^ 1 on a non-negative a: the lowest bit flipped
+				return F.Sub(F.Add(at, F.I64(1)), F.Mul(F.I64(2), F.Mod(at, F.I64(2))))
+			}
 		}
 		unsup("spec operator %s", x.Op)
 	case *ast.IndexExpr:
@@ -373,6 +383,17 @@ func (se *SpecEnv) index(base Value, idx *Term) Value {
 		}
 		if b.Obj.Unmodelled {
 			// a slice whose contents are not modelled: the (arbitrary, but stable) value the code itself reads there
+			se.fr.v.specDepth++
+			defer func() { se.fr.v.specDepth-- }()
+			if tc := se.fr.topContract(); tc == nil || tc.Options["functional-nested-slices"] == "" {
+				for _, bt := range se.bound {
+					if termMentions(idx, bt) {
+						// without the option a cell is one arbitrary value per index TERM: under a quantifier every
+						// instance would share it, which is not what the clause says
+						unsup("quantified index into a slice whose contents are not modelled (use 'option functional-nested-slices')")
+					}
+				}
+			}
 			return se.fr.load(se.state(), &PtrV{Obj: b.Obj, Path: append(append([]PE(nil), b.Path...), PE{T: F.Add(b.Off, idx)})})
 		}
 		if _, soa := se.fr.v.getPath(se.fr.v.content(se.state(), b.Obj), b.Path).(*SoAV); soa {
@@ -381,6 +402,20 @@ func (se *SpecEnv) index(base Value, idx *Term) Value {
 		}
 		return se.fr.v.getPath(se.fr.v.content(se.state(), b.Obj), append(append([]PE(nil), b.Path...), PE{T: F.Add(b.Off, idx)}))
 	case *IteV:
+		// a conditionally nil slice (a result that is nil on the error paths): the nil alternative reads as an
+		// unconstrained value, so the clause must guard it
+		nilSlice := func(x Value) bool { s, ok := x.(*SliceV); return ok && s.Obj == nil }
+		if nilSlice(b.A) != nilSlice(b.B) {
+			other, c := b.B, b.C
+			if nilSlice(b.B) {
+				other, c = b.A, F.Not(b.C)
+			}
+			ov := se.index(other, idx)
+			if t, ok := ov.(*Term); ok {
+				return F.Ite(c, F.Fresh("nilread", t.S), t)
+			}
+			return ov
+		}
 		return se.fr.v.mergeV(b.C, se.index(b.A, idx), se.index(b.B, idx))
 	}
 	unsup("spec index of %T", base)
@@ -1091,6 +1126,28 @@ func (se *SpecEnv) readCond(x Value) Value {
 		return se.F().Ite(iv.C, at, bt)
 	}
 	return &IteV{C: iv.C, A: a, B: b}
+}
+
+// termMentions: t occurs in body
+func termMentions(body, t *Term) bool {
+	seen := map[*Term]bool{}
+	var rec func(x *Term) bool
+	rec = func(x *Term) bool {
+		if x == t {
+			return true
+		}
+		if seen[x] {
+			return false
+		}
+		seen[x] = true
+		for _, a := range x.Args {
+			if rec(a) {
+				return true
+			}
+		}
+		return false
+	}
+	return rec(body)
 }
 
 // boundShift: the constant c such that every occurrence of the bound variable bv in body is a summand of a sum
